@@ -37,3 +37,9 @@ def run(ctx):
 
 def replay(ctx, case):
     {"all": _a, "regen": _r, "index": _i}[case.get("family", "all")][2](ctx, case)
+
+
+def probes(ctx):
+    from vpbt import gfi_probes
+
+    gfi_probes.run_probes(ctx, ['switch_index_out_of_range', 'scan_index_edit_final_carry', 'assess_empty_sample'])
